@@ -54,6 +54,10 @@ CLAIMED['C03'] = dict(engine='E5', technique='Coq proof relative to the engine c
     text='Partial. Proved relative to the contract (ops, simplify, transform, C09 normal form): the resolved clip is the union of the children under their effective clip-rule placed by child.tf . clipPath.tf . referrer CTM, intersected with the clipPath\'s own clip for chains of any length; a clipped leaf is its fill region (fill-rule) inside every clip (nonzero results). Which clips reach which leaf (ancestor stacking, use) and absence of clip-path in the output are decided on every run by the renderer judge. One fix commit (clip-rule inherited from the clipPath element); one recorded finding (clip-path on use).',
     note='Engine contract assumed; Clips.v hand model validated with the real engine (identical commands) on 200/5000 clipPath configurations.',
     design='§7 C03')
+CLAIMED['C01'] = dict(engine='E5', technique='Coq proof about a hand model of the checkpicosvg gate (allow-list over typed-index element paths, required defs, duplicate ids) tied to the code by a differential run on random element trees; spec-side README-grammar checker judging library and CLI conversions over ndigits x allow_text x drop_unsupported on every run',
+    text='Partial. Proved: every element path admitted by the allow-list has one of the five README shapes (root, defs[0], gradient in defs, stop in gradient, chain of g/path), and a tree that passes the gate has only such paths, has /svg[0]/defs[0] and unique ids - topicosvg returns normally only through that gate. Not proved: attribute-level and path-data conditions (the gate does not check them); these are decided on every run by tools/pico.py applied to conversions of generated documents (library + CLI). One fix commit (groups left underfull / with opacity 0 by late shape removal).',
+    note='Gate model validated on 600/12000 random trees (verdict and pruned tree identical); judge covers 260/6000 documents.',
+    design='§7 C01')
 PENDING = {}
 
 def main():
